@@ -21,7 +21,7 @@ fl = env.fl
 
 
 def cases(rng, run: int, tier: str) -> Iterator[dict]:
-    sp = S.gen_spec(rng, activations=["General"], fn_reads_output=False, disabled=0.05, norm_functions=True, user_terms=["InputGain"])
+    sp = S.gen_spec(rng, activations=S.GENERAL, fn_reads_output=False, disabled=0.05, norm_functions=True, user_terms=["InputGain"])
     if rng.random() < 0.12:
         sp = S.example_spec(rng, randomise_cascade=False) or sp
     # make the cascade interesting: most outputs get some setting
